@@ -11,7 +11,7 @@ c18_device_width c18_device_valid c18_settings_gamma c18_settings_backjumps c18_
 c18_fc_gamma c18_fc_backjumps c18_fc_wide_gate c18_fc_unbound c18_fc_valid
 c18_rc_form_plist c18_rc_form_dict c18_rc_form_other c18_rc_keys c18_rc_phase_plist c18_rc_phase_dict c18_rc_counts
 c18_rc_valid_plist c18_rc_valid_dict
-c18_dq_group_size c18_dq_non_qpd c18_dq_bases_differ c18_dq_total c18_dq_map_count c18_dq_map_range c18_dq_map_none c18_dq_unset_no_maps c18_dq_group_size_total c18_dq_non_qpd_total c18_dq_frame_no_maps c18_dq_frame_partial c18_dq_frame c18_dq_valid
+c18_dq_group_size c18_dq_non_qpd c18_dq_bases_differ c18_dq_total c18_dq_map_count c18_dq_map_range c18_dq_map_none c18_dq_unset_no_maps c18_dq_group_size_total c18_dq_non_qpd_total c18_dq_frame_no_maps c18_dq_frame_partial c18_dq_frame c18_dq_validate_covers c18_dq_frame_total c18_dq_two_in_pair c18_dq_repeated_index c18_dq_valid
 c18_basis_empty c18_basis_wide c18_basis_ragged c18_basis_coeffs c18_set_coeffs c18_basis_valid
 c18_bid_range c18_q1_half c18_q1_bid c18_q1_valid c18_q2_arity c18_q2_bid c18_q2_valid
 c18_sep_label_count c18_sep_none_used c18_sep_spans c18_sep_valid c18_exp_count c18_exp_missing c18_exp_valid
@@ -30,8 +30,8 @@ ENTRY = dict(
         level_text="Unbounded theorems about the executable model of the validation blocks of 29 functions (22 entry points): one implication "
                    "per documented error class, each for EVERY position of the offending element and arbitrary other input (all list "
                    "lengths, all rationals incl. NaN/inf budgets), the frame theorems (a refusal leaves the argument of the three "
-                   "inplace-capable functions untouched; for decompose_qpd_instructions c18_dq_frame under the coverage hypothesis that "
-                   "every QPD gate occurs in instruction_ids, c18_dq_frame_partial/c18_dq_frame_no_maps otherwise), `never Proceeds` "
+                   "inplace-capable functions untouched; for decompose_qpd_instructions unconditionally: c18_dq_frame_total, via "
+                   "c18_dq_validate_covers), `never Proceeds` "
                    "variants without the in-range hypotheses, and a converse `valid -> Proceeds` per entry point. Closed under the global "
                    "context. The ordered guard list of every modelled function and its number of raise sites are regenerated facts that "
                    "must equal what Properties/C18.v writes. The model is run against the implementation on >2500 generated calls per "
@@ -58,9 +58,6 @@ ENTRY = dict(
             "OBSERVATION (undocumented, compared but not judged): generate_cutting_experiments with dictionaries whose key sets differ: "
             "an observables label missing from circuits gives KeyError (Crashed in the model), a circuits label missing from observables "
             "is silently ignored",
-            "OBSERVATION: decompose_qpd_instructions with REPEATED indices in instruction_ids (e.g. [[0],[0]] on two gates) passes the "
-            "count check, assigns gate 0 and is then refused for gate 1's unset basis_id, i.e. after the argument was modified "
-            "(Example c18_ex_duplicate_ids_break_frame); repeated indices are not a documented error class and are not generated",
             "not modelled: negative Python indices into circuit.data, empty PauliList with a QuantumCircuit, non-numeric budgets "
             "(TypeError), zero-qubit instructions in separate_circuit beyond the assert, map ids that are floats",
             "when KNOWN_FINDINGS.json lists F7/F12/F13 as known, the inplace=True calls of that function are compared with the "
